@@ -30,8 +30,8 @@ def leaf_sig(n, w, kind="plain"):
 def rand_bundle_tree(rng, depth):
     names = ["x", "y", "z", "u", "v"]
     rng.shuffle(names)
-    ns = rng.randint(1, 2)
-    sigs = [leaf_sig(names[i], rng.choice([1, 1, 2]), rng.choice(["plain", "plain", "input", "output"])) for i in range(ns)]
+    ns = rng.randint(1, 3)
+    sigs = [leaf_sig(names[i], rng.choice([1, 1, 1, 2]), rng.choice(["plain", "plain", "input", "output"])) for i in range(ns)]
     subs = []
     if depth > 0 and rng.random() < 0.6:
         subs.append({"n": names[ns], "flip": rng.random() < 0.3, "role": None, "of": rand_bundle_tree(rng, depth - 1)})
@@ -50,6 +50,7 @@ class ModGen:
         self.rng, self.name, self.design, self.opts = rng, name, design, opts
         self.sigs, self.bundles, self.insts = [], [], []
         self.counter = 0
+        self.shared_nc = {}
 
     def fresh(self, pre):
         self.counter += 1
@@ -78,6 +79,13 @@ class ModGen:
     def scalar(self, w, depth=2, allow_ref=True, this=None):
         r = self.rng.random()
         o = self.opts
+        if o.get("bundles", True) and any(b["port"] for b in self.bundles) and self.rng.random() < 0.25:
+            for b in self.bundles:
+                if b["port"]:
+                    tree = next(t["tree"] for t in self.design["bundles"] if t["name"] == b["of"])
+                    leaves = [l for l in tree_leaves(tree) if l[1] == w]
+                    if leaves:
+                        return {"k": "bref", "root": b["n"], "path": self.rng.choice(leaves)[0]}
         if r < 0.30 or depth == 0:
             return {"k": "sig", "n": self.some_sig(w)}
         if r < 0.50:
@@ -116,12 +124,21 @@ class ModGen:
                 leaves = [l for l in tree_leaves(b["tree"]) if l[1] == w]
                 if leaves:
                     path, _ = self.rng.choice(leaves)
-                    return {"k": "bref", "root": self.bundle_inst(b["name"]), "path": path}
+                    ports = [x["n"] for x in self.bundles if x["of"] == b["name"] and x["port"]]
+                    root = self.rng.choice(ports) if ports and self.rng.random() < 0.7 else self.bundle_inst(b["name"])
+                    return {"k": "bref", "root": root, "path": path}
         return {"k": "sig", "n": self.some_sig(w)}
 
-    def bundle_conn(self, bdef, depth=1):
+    def bundle_conn(self, bdef, depth=1, this=None):
         tree = next(b["tree"] for b in self.design["bundles"] if b["name"] == bdef)
         r = self.rng.random()
+        if self.opts.get("refs", True) and self.rng.random() < 0.3:
+            # a reference to another instance's bundle-valued port of the same bundle type
+            cands = [(i["n"], q) for i in self.insts for q, bd in i.get("_bports", {}).items()
+                     if bd == bdef and "array" not in i and "pair" not in i and (i["n"], q) != this]
+            if cands:
+                j, q = self.rng.choice(cands)
+                return {"k": "pref", "inst": j, "port": q}
         if r < 0.55 or not self.opts.get("anon", True):
             return {"k": "bundle", "n": self.bundle_inst(bdef)}
         return self.anon_for(tree)
@@ -191,13 +208,28 @@ def gen_design(rng, opts=None):
                 if "array" in inst:
                     n = inst["array"]
                     ww = w * n if rng.random() < 0.5 else w
-                    c = g.scalar(ww, 2, allow_ref=False)
+                    if ww == w * n and rng.random() < 0.35:
+                        # strided / reversed slice taken directly from a signal: the per-element re-slicing peels it
+                        st = rng.choice([-1, 2, -2])
+                        big = g.new_sig(abs(st) * ww + rng.randint(0, 2))
+                        bw = abs(st) * ww + 0
+                        c = {"k": "slice", "p": {"k": "sig", "n": big}, "i": ({"s": 0, "e": abs(st) * ww, "st": st} if st > 0 else
+                                                                            {"s": abs(st) * ww - 1, "e": None, "st": st})}
+                    else:
+                        c = g.scalar(ww, 2, allow_ref=False)
                 elif "pair" in inst:
                     c = {"k": "bundle", "n": g.bundle_inst("Diff")} if r < 0.4 else g.scalar(w, 1, allow_ref=False)
-                elif r < 0.08 and opts.get("noconns", True):
+                elif r < 0.14 and opts.get("noconns", True):
                     c = {"k": "noconn"}
-                    if rng.random() < 0.3:
+                    rr = rng.random()
+                    if rr < 0.3:
                         c["name"] = g.fresh("nc")
+                    elif rr < 0.75:
+                        # one NoConn object (named or not) shared by several ports
+                        key = (w, 0)
+                        if key not in g.shared_nc:
+                            g.shared_nc[key] = {"id": len(g.shared_nc) + 1, "name": g.fresh("nc") if rng.random() < 0.6 else None}
+                        c.update(g.shared_nc[key])
                 elif r < 0.16 and opts.get("refs", True):
                     # leave unconnected but referenced by someone later — or referenced nowhere (invalid): the model decides
                     others = [j for j in g.insts if j is not inst and "array" not in j and "pair" not in j]
@@ -215,7 +247,7 @@ def gen_design(rng, opts=None):
                 if "array" in inst:
                     inst["conns"].append([bp, {"k": "bundle", "n": g.bundle_inst(bdef)}])
                 else:
-                    inst["conns"].append([bp, g.bundle_conn(bdef)])
+                    inst["conns"].append([bp, g.bundle_conn(bdef, this=(inst["n"], bp))])
         for inst in g.insts:
             del inst["_iface"], inst["_bports"]
         design["modules"].append({"name": name, "sigs": g.sigs, "bundles": g.bundles, "insts": g.insts})
